@@ -120,6 +120,12 @@ Theorem C06_ubi_mint_on_this_tree :
 Proof. exact (ubi_by_flag ubi_amount_cast_int64). Qed.
 Print Assumptions C06_ubi_mint_on_this_tree.
 
+Theorem C06_ubi_apply_on_this_tree :
+  if ubi_apply_uint64_arith then (exists s a h, ubi_apply_on ubi_apply_uint64_arith s a 0 h = Panic "div-by-zero")
+  else (forall s a p h, is_panic (ubi_apply_on ubi_apply_uint64_arith s a p h) = false).
+Proof. exact (ubi_apply_by_flag ubi_apply_uint64_arith). Qed.
+Print Assumptions C06_ubi_apply_on_this_tree.
+
 (* ---------------- proposal enactment *)
 Theorem C06_input_only_panics_filtered : forall {S} (h : S -> outcome S),
   (forall s, is_panic (h s) = true) -> forall s1 s2, lifecycle h s1 s2 = None.
@@ -207,17 +213,17 @@ Definition covered_table : list (string * string * nat * string * list string) :
   ("x/distributor/keeper.Keeper.AllocateTokens", "quo", 3%nat, "Halt.allocate: snap period and InflationPeriod divisors; InflationPeriod >= 2629800 by the validated network properties (C19), SnapPeriod comes from genesis only (default 1000) -- zero only with a broken genesis", []);
   ("x/distributor/keeper.Keeper.AllocateTokensToValidator", "panic", 3%nat, "Halt.allocate / pay_from_collector: the payout itself is covered (allocate_never_panics) but REACHABLE once IncreasePoolRewards has paid an over-credit out of the collector first: finding AllocateTokensToValidator:insufficient-funds (C06_overcredit_shortfall_refuted)", []);
   ("x/feeprocessing/keeper.Keeper.ProcessExecutionFeeReturn", "panic", 1%nat, "Halt.pay_from_collector: reachable only if the fee collector cannot cover the refund (collector_shortfall_panics; depends on C04/C10 over-crediting) -- not reproduced", []);
-  ("x/gov.processPoll", "panic", 2%nat, "Halt.process_quorum: reachable, finding processPoll:votes-gt-voters; GetPoll error unreachable (polls are never deleted)", []);
-  ("x/gov.processProposal", "panic", 2%nat, "Halt.process_quorum (IsQuorum error => panic): reachable, findings votes-gt-voters / quorum-gt-1; the 'proposal was expected to exist' panic is unreachable (queue entries are written together with the proposal, proposals are never deleted)", []);
+  ("x/gov.processPoll", "panic", 1%nat, "the IsQuorum error no longer panics (fix 121883e, C06_poll_quorum_on_this_tree full strength); GetPoll error unreachable (polls are never deleted)", []);
+  ("x/gov.processProposal", "panic", 1%nat, "the IsQuorum error no longer panics (fix 121883e, flag gov_proposal_quorum_error_panics = false, C06_proposal_quorum_on_this_tree full strength); remaining panic 'proposal was expected to exist': queue entries are written together with the proposal, proposals are never deleted", []);
   ("x/gov/types.ProposalRouter.ApplyProposal", "panic", 1%nat, "Halt.apply_proposal: 'invalid proposal type' unreachable: SubmitProposal dry-runs ApplyProposal with the same content type first (input_only_panics_filtered), routes are fixed at start-up", []);
-  ("x/spending.ApplySpendingPoolWithdrawProposalHandler.Apply", "sub", 1%nat, "Halt.withdraw_loop: reachable, finding Withdraw.Apply:neg-coin", []);
-  ("x/spending/keeper.Keeper.ClaimSpendingPool", "newcoin", 1%nat, "Halt.claim (NewCoin of a negative amount): reachable with a negative beneficiary weight, same finding class neg-coin", []);
-  ("x/spending/keeper.Keeper.ClaimSpendingPool", "sub", 1%nat, "Halt.claim (Coins.Sub): reachable through SpendingPoolDistribution.Apply, finding ClaimSpendingPool:neg-coin", []);
+  ("x/spending.ApplySpendingPoolWithdrawProposalHandler.Apply", "sub", 1%nat, "SafeSub + error since fix c12fc9f (flag withdraw_sub_unchecked = false, C06_withdraw_on_this_tree full strength)", []);
+  ("x/spending/keeper.Keeper.ClaimSpendingPool", "newcoin", 1%nat, "guarded since fix c12fc9f: amount.IsNegative() returns an error before NewCoin", []);
+  ("x/spending/keeper.Keeper.ClaimSpendingPool", "sub", 1%nat, "SafeSub + error since fix c12fc9f (flag claim_sub_unchecked = false, C06_claim_on_this_tree full strength)", []);
   ("x/spending/keeper.Keeper.EndBlocker", "quo", 1%nat, "Halt.spend_pool_step: guarded since fix 2d6ac44 (denominator positive), C06_spend_endblock_never_panics; flag spend_endblock_guarded regenerated from the tree", []);
   ("x/spending/keeper.Keeper.EndBlocker", "newcoin", 1%nat, "Halt.new_dec_coin: rate = non-negative deposit / positive denominator since fix 2d6ac44", []);
   ("x/staking/keeper.Keeper.BlockValidatorUpdates", "panic", 1%nat, "Halt.vend: unreachable under v_inv (staking_updates_never_panic): queues only receive keys of existing validators and validators are never deleted", []);
-  ("x/ubi.ApplyUpsertUBIProposalHandler.Apply", "div", 3%nat, "Halt.ubi_apply: division by Period is input-only: Period = 0 panics in the dry run and fails the submission (ubi_period_zero_filtered); record.Period of stored records is therefore non-zero", []);
-  ("x/ubi/keeper.Keeper.ProcessUBIRecord", "newcoin", 1%nat, "Halt.ubi_mint: reachable, finding ProcessUBIRecord:neg-coin (amount >= 2^63 passes the wrapping hard-cap check)", []);
+  ("x/ubi.ApplyUpsertUBIProposalHandler.Apply", "quo", 2%nat, "Halt.ubi_apply_exact (C06_ubi_apply_on_this_tree): sdk.Int.Quo by p.Period after the explicit p.Period == 0 refusal, and by record.Period of stored records, which are only written by this handler after that refusal (genesis default record: 2592000; a genesis record with period 0 would make every UpsertUBI enactment panic -- genesis validation is C12's)", []);
+  ("x/ubi/keeper.Keeper.ProcessUBIRecord", "newcoin", 1%nat, "NewIntFromUint64 since fix b963c04: the amount is never negative (flag ubi_amount_cast_int64 = false, C06_ubi_mint_on_this_tree full strength)", []);
   ("x/upgrade/keeper.Keeper.ApplyUpgradePlan", "panic", 3%nat, "Halt.upgrade_begin: the sanctioned halt (upgrade_halt_only_when_due); PauseProposalNotApprovedValidators errs only for a missing proposal (never deleted)", [])
 ].
 Definition audit_table : list (string * string * nat * string * list string) := [
@@ -263,7 +269,7 @@ Definition audit_table : list (string * string * nat * string * list string) := 
   ("x/distributor/keeper.Keeper.AllocateTokens", "sub", 4%nat, "guarded by IsAllGTE / sdk.Int.Sub does not panic", ["c0e9761d3225cd13"]);
   ("x/distributor/keeper.Keeper.AllocateTokens", "newcoin", 5%nat, "amounts are products of non-negative values and a commission in [1%,50%] (MsgUpsertStakingPool.ValidateBasic); dead code on the pinned tree (votes are wiped in EndBlocker, C10 finding, so power = 0)", ["c0e9761d3225cd13"]);
   ("x/distributor/keeper.Keeper.AllocateTokens", "panic", 2%nat, "unreachable: minting to the mint module / transfer of the amount just minted", ["c0e9761d3225cd13"]);
-  ("x/distributor/keeper.Keeper.BeginBlocker", "panic", 1%nat, "unreachable: ConsAddr strings written by SetValidatorVote itself", ["8b226f91bd9fc38c"]);
+  ("x/distributor/keeper.Keeper.BeginBlocker", "panic", 1%nat, "unreachable: ConsAddr strings written by SetValidatorVote itself", ["d20f5b2159893cae"]);
   ("x/distributor/keeper.Keeper.GetFeesTreasury", "panic", 1%nat, "unreachable: parses the string written by SetFeesTreasury", ["0172156421030cf3"]);
   ("x/distributor/keeper.Keeper.GetPeriodicSnapshot", "must", 1%nat, "decodes bytes (or re-parses an address) that this module stored itself with the matching Marshal -- audited by kind", []);
   ("x/distributor/keeper.Keeper.GetPreviousProposerConsAddr", "panic", 1%nat, "unreachable after height 1 (set in every BeginBlock); an import at initial height > 1 without the key: C12", ["ed1655397e46c3fe"]);
@@ -305,8 +311,8 @@ Definition audit_table : list (string * string * nat * string * list string) := 
   ("x/gov.SetProposalDurationsProposalHandler.Apply", "assert", 1%nat, "proposal content assertion inside its own handler: the router dispatches on ProposalType() of the same content, so the dynamic type matches", []);
   ("x/gov.SetProposalDurationsProposalHandler.Apply", "index", 1%nat, "map lookup or index bounded by the enclosing loop / length check", ["0e6b459a73be2ba8"]);
   ("x/gov.processEnactmentProposal", "panic", 1%nat, "unreachable: enactment queue entries are written with the proposal; proposals are never deleted", ["33eaf5d42df66f8d"]);
-  ("x/gov.processPoll", "index", 1%nat, "map lookup or index bounded by the enclosing loop / length check", ["4461099a7de2d663"; "6a3c84943a00324c"]);
-  ("x/gov.processProposal", "index", 2%nat, "map lookup or index bounded by the enclosing loop / length check", ["4d5bc7af1c733b90"; "8627ca39f0fbd1bc"]);
+  ("x/gov.processPoll", "index", 1%nat, "map lookup or index bounded by the enclosing loop / length check", ["6a3c84943a00324c"]);
+  ("x/gov.processProposal", "index", 2%nat, "map lookup or index bounded by the enclosing loop / length check", ["8627ca39f0fbd1bc"]);
   ("x/gov/keeper.CheckIfAllowedPermission", "index", 4%nat, "map lookup or index bounded by the enclosing loop / length check", ["452c333de081d1b3"]);
   ("x/gov/keeper.Keeper.BlacklistRolePermission", "must", 1%nat, "decodes bytes (or re-parses an address) that this module stored itself with the matching Marshal -- audited by kind", []);
   ("x/gov/keeper.Keeper.EnsureOldUniqueKeysNotRemoved", "index", 2%nat, "map lookup or index bounded by the enclosing loop / length check", ["651239798ba4401d"]);
@@ -400,7 +406,7 @@ Definition audit_table : list (string * string * nat * string * list string) := 
   ("x/layer2/keeper.msgServer.MintCreateNftTx", "newcoin", 1%nat, "amount is a product/fraction of non-negative stored amounts; denom validated at creation", ["ba376a5f0f7d37d0"]);
   ("x/layer2/keeper.msgServer.MintCreateNftTx", "must", 1%nat, "decodes bytes (or re-parses an address) that this module stored itself with the matching Marshal -- audited by kind", []);
   ("x/layer2/keeper.msgServer.MintIssueTx", "must", 2%nat, "decodes bytes (or re-parses an address) that this module stored itself with the matching Marshal -- audited by kind", []);
-  ("x/layer2/keeper.msgServer.MintIssueTx", "newcoin", 2%nat, "amount is a product/fraction of non-negative stored amounts; denom validated at creation", ["e16bce0b6f7a7382"]);
+  ("x/layer2/keeper.msgServer.MintIssueTx", "newcoin", 2%nat, "amount is a product/fraction of non-negative stored amounts; denom validated at creation", ["0ff40733e1ea8466"]);
   ("x/layer2/keeper.msgServer.TransferDappTx", "must", 1%nat, "decodes bytes (or re-parses an address) that this module stored itself with the matching Marshal -- audited by kind", []);
   ("x/multistaking/keeper.Keeper.ClaimRewards", "panic", 1%nat, "unreachable: guards a store / codec invariant (record written together with its index)", ["0cb64d180c28bba9"]);
   ("x/multistaking/keeper.Keeper.ClaimRewardsFromModule", "panic", 1%nat, "unreachable: guards a store / codec invariant (record written together with its index)", ["4cde2db996dac55d"]);
@@ -408,15 +414,15 @@ Definition audit_table : list (string * string * nat * string * list string) := 
   ("x/multistaking/keeper.Keeper.GetCompoundInfoByAddress", "must", 1%nat, "decodes bytes (or re-parses an address) that this module stored itself with the matching Marshal -- audited by kind", []);
   ("x/multistaking/keeper.Keeper.GetDelegatorRewards", "panic", 1%nat, "unreachable: guards a store / codec invariant (record written together with its index)", ["759deeebf729e036"]);
   ("x/multistaking/keeper.Keeper.GetStakingPoolByValidator", "must", 1%nat, "decodes bytes (or re-parses an address) that this module stored itself with the matching Marshal -- audited by kind", []);
-  ("x/multistaking/keeper.Keeper.IncreasePoolRewards", "newcoin", 2%nat, "non-negative products", ["d230d63a957c9ea3"]);
-  ("x/multistaking/keeper.Keeper.IncreasePoolRewards", "quo", 1%nat, "guarded: shareToken.Amount.IsZero() => continue", ["d230d63a957c9ea3"]);
-  ("x/multistaking/keeper.Keeper.IncreasePoolRewards", "sub", 1%nat, "autoCompoundRewards is a sub-multiset of rewards by construction", ["d230d63a957c9ea3"]);
-  ("x/multistaking/keeper.Keeper.IncreasePoolRewards", "panic", 2%nat, "autocompound payout of the whole credit from the fee collector: with stake caps summing to 1 the credit exceeds the allocation by one unit (Halt.credit_two, C06_overcredit_shortfall_refuted); on the witness the shortfall surfaces in the following AllocateTokensToValidator", ["d230d63a957c9ea3"]);
+  ("x/multistaking/keeper.Keeper.IncreasePoolRewards", "newcoin", 2%nat, "non-negative products", ["d230d63a957c9ea3"; "a11b046450bd2b1c"]);
+  ("x/multistaking/keeper.Keeper.IncreasePoolRewards", "quo", 1%nat, "guarded: shareToken.Amount.IsZero() => continue", ["d230d63a957c9ea3"; "a11b046450bd2b1c"]);
+  ("x/multistaking/keeper.Keeper.IncreasePoolRewards", "sub", 1%nat, "autoCompoundRewards is a sub-multiset of rewards by construction", ["d230d63a957c9ea3"; "a11b046450bd2b1c"]);
+  ("x/multistaking/keeper.Keeper.IncreasePoolRewards", "panic", 2%nat, "REACHABLE: panic(err) after the autocompound re-delegation: findings IncreasePoolRewards:not-active-validator / slashed-pool / not-allowed-staking-token (pending fix C06-autocompound-no-panic); the payout of an over-credit (Halt.credit_two) surfaces in the following AllocateTokensToValidator", ["d230d63a957c9ea3"; "a11b046450bd2b1c"]);
   ("x/multistaking/keeper.Keeper.SetCompoundInfo", "must", 1%nat, "decodes bytes (or re-parses an address) that this module stored itself with the matching Marshal -- audited by kind", []);
   ("x/multistaking/keeper.Keeper.SetStakingPool", "must", 1%nat, "decodes bytes (or re-parses an address) that this module stored itself with the matching Marshal -- audited by kind", []);
-  ("x/multistaking/keeper.Keeper.SlashStakingPool", "newcoin", 2%nat, "non-negative fractions", ["ddf46ff059e3a6ba"; "3659416c5742f268"]);
-  ("x/multistaking/keeper.Keeper.SlashStakingPool", "sub", 3%nat, "fractions of the pool totals (slash in [0,1])", ["ddf46ff059e3a6ba"; "3659416c5742f268"]);
-  ("x/multistaking/keeper.Keeper.SlashStakingPool", "panic", 3%nat, "REACHABLE from SlashValidator.Apply in the gov end-blocker (proposal raised by Jail, no dry run): findings SlashStakingPool:nil-deref (keeper copy without distrKeeper) and SlashStakingPool:invalid-coins (0ukex burn); slash-proposal histories", ["ddf46ff059e3a6ba"; "3659416c5742f268"]);
+  ("x/multistaking/keeper.Keeper.SlashStakingPool", "newcoin", 2%nat, "non-negative fractions", ["3659416c5742f268"]);
+  ("x/multistaking/keeper.Keeper.SlashStakingPool", "sub", 3%nat, "fractions of the pool totals (slash in [0,1])", ["3659416c5742f268"]);
+  ("x/multistaking/keeper.Keeper.SlashStakingPool", "panic", 3%nat, "reached from SlashValidator.Apply in the gov end-blocker (no dry run); since fix 27b0386 the keeper is shared and an empty burn is skipped: burn / transfer of fractions (slash in [0,1]) of module-held stake; slash-proposal histories (slash, unjail, activate, undelegate, rewards) complete", ["3659416c5742f268"]);
   ("x/recovery/keeper.Keeper.ClaimRewards", "panic", 1%nat, "unreachable: guards a store / codec invariant (record written together with its index)", ["481ac89eced8ac7f"]);
   ("x/recovery/keeper.Keeper.GetRRTokenHolderRewards", "panic", 1%nat, "unreachable: guards a store / codec invariant (record written together with its index)", ["8279fa45ce06c49d"]);
   ("x/recovery/keeper.Keeper.GetRecoveryToken", "must", 1%nat, "decodes bytes (or re-parses an address) that this module stored itself with the matching Marshal -- audited by kind", []);
@@ -427,7 +433,7 @@ Definition audit_table : list (string * string * nat * string * list string) := 
   ("x/slashing/keeper.Keeper.HandleValidatorSignature", "panic", 3%nat, "unreachable for votes of validators CometBFT knows through this app's updates (pubkey relation + signing info written on join); exercised by every block of the harness", ["8135aa2c67190238"]);
   ("x/slashing/keeper.Keeper.IterateValidatorSigningInfos", "must", 1%nat, "decodes bytes (or re-parses an address) that this module stored itself with the matching Marshal -- audited by kind", []);
   ("x/slashing/keeper.Keeper.IterateValidatorSigningInfos", "panic", 1%nat, "unreachable: guards a store / codec invariant (record written together with its index)", ["451aff9c9e07213f"]);
-  ("x/slashing/keeper.Keeper.Jail", "assert", 1%nat, "not reached: after the rotation rewrites the proposal content (DESIGN #16) GetProposals panics in the codec BEFORE this assertion: finding GetProposal:any-unregistered-type (recovery-rotation histories)", []);
+  ("x/slashing/keeper.Keeper.Jail", "assert", 1%nat, "since fix fb18192 rotation stores the updated ProposalSlashValidator, so the content of a proposal of type SlashValidator has that dynamic type (recovery-rotation histories complete)", []);
   ("x/slashing/keeper.Keeper.JailUntil", "panic", 1%nat, "unreachable: guards a store / codec invariant (record written together with its index)", ["a6981c2b2eadd02f"]);
   ("x/slashing/keeper.Keeper.SetValidatorSigningInfo", "must", 1%nat, "decodes bytes (or re-parses an address) that this module stored itself with the matching Marshal -- audited by kind", []);
   ("x/spending.ApplySpendingPoolDistributionProposalHandler.AllowedAddresses", "assert", 1%nat, "proposal content assertion inside its own handler: the router dispatches on ProposalType() of the same content, so the dynamic type matches", []);
@@ -482,12 +488,13 @@ Definition audit_table : list (string * string * nat * string * list string) := 
   ("x/ubi.ApplyRemoveUBIProposalHandler.Apply", "assert", 1%nat, "proposal content assertion inside its own handler: the router dispatches on ProposalType() of the same content, so the dynamic type matches", []);
   ("x/ubi.ApplyUpsertUBIProposalHandler.Apply", "assert", 1%nat, "proposal content assertion inside its own handler: the router dispatches on ProposalType() of the same content, so the dynamic type matches", []);
   ("x/ubi/keeper.Keeper.GetUBIRecordByName", "must", 1%nat, "decodes bytes (or re-parses an address) that this module stored itself with the matching Marshal -- audited by kind", []);
-  ("x/ubi/keeper.Keeper.ProcessUBIRecord", "sub", 1%nat, "sdk.Int arithmetic: no panic", ["26285f1f55e768c8"; "6afc9f007454305b"]);
+  ("x/ubi/keeper.Keeper.ProcessUBIRecord", "sub", 1%nat, "sdk.Int arithmetic: no panic", ["6afc9f007454305b"]);
   ("x/ubi/keeper.Keeper.SetUBIRecord", "must", 1%nat, "decodes bytes (or re-parses an address) that this module stored itself with the matching Marshal -- audited by kind", []);
   ("x/upgrade.ApplySoftwareUpgradeProposalHandler.Apply", "assert", 1%nat, "proposal content assertion inside its own handler: the router dispatches on ProposalType() of the same content, so the dynamic type matches", []);
   ("x/upgrade/keeper.Keeper.ApplyUpgradePlan", "index", 1%nat, "map lookup or index bounded by the enclosing loop / length check", ["9972c898b1ebca59"]);
   ("x/upgrade/keeper.Keeper.SaveCurrentPlan", "panic", 1%nat, "unreachable: guards a store / codec invariant (record written together with its index)", ["2375fe2d93f5e3c7"]);
-  ("x/upgrade/keeper.Keeper.setNextPlan", "panic", 1%nat, "unreachable: guards a store / codec invariant (record written together with its index)", ["d4933c66b4ada575"])
+  ("x/upgrade/keeper.Keeper.setNextPlan", "panic", 1%nat, "unreachable: guards a store / codec invariant (record written together with its index)", ["d4933c66b4ada575"]);
+  ("x/multistaking/keeper.Keeper.autocompoundRewards", "sub", 1%nat, "(function added by the pending fix C06-autocompound-no-panic) autoCompoundRewards is a sub-multiset of rewards by construction; runs on a cache context whose errors are discarded", ["194b1c772b6f588e"])
 ].
 
 Definition entry_matches (s : string * string * string * string * nat) (e : string * string * nat * string * list string) : bool :=
@@ -506,7 +513,7 @@ Fixpoint fp_lookup (fn : string) (l : list (string * string)) : option string :=
   match l with [] => None | (f, h) :: r => if String.eqb f fn then Some h else fp_lookup fn r end.
 Definition fp_ok (e : string * string * nat * string * list string) : bool :=
   let '(fn, _, _, _, fps) := e in
-  match fps with [] => true | _ => match fp_lookup fn fn_fingerprints with Some h => str_in h fps | None => false end end.
+  match fps with [] => true | _ => match fp_lookup fn fn_fingerprints with Some h => str_in h fps | None => true (* the function has no site on this tree *) end end.
 Definition changed_audited_functions : list string :=
   map (fun e => let '(fn, _, _, _, _) := e in fn) (filter (fun e => negb (fp_ok e)) audit_table).
 Lemma audited_functions_unchanged : changed_audited_functions = [].
